@@ -8,6 +8,12 @@ CHECKS = {
         "text": "Every query tree up to the stated depth over a universe corpus that realises every posting-list alignment for D<=4..5 documents, on every segment composition / deletion set, through every access path, is compared with an independent set-semantics evaluator. Complete within the bound; says nothing about larger documents counts or deeper trees.",
         "note": "Trusted: the reference evaluator in mc/qast.py (documented meaning), identification of documents by stored key. Bounds: D<=5 documents, tree depth<=2, block size 1-2.",
     },
+    "C02": {
+        "engine": "E2", "level": "fault_enumeration",
+        "technique": "exhaustive crash-point enumeration: the real writer runs over a recording storage layer, a crash is reconstructed after every storage mutation with every admissible torn prefix of open files, each crash image is re-opened by the real code and compared with the old/new logical state",
+        "text": "For every transaction of the alphabet (add, add+delete, update, delete-only, schema add/remove field, empty) x ending (commit merge=False / default merge with MERGE_SMALL firing / optimize / CLEAR / custom merge / cancel / exception in with-block) x compound or loose segments, from every start state of the family (empty, 1-2 segments, with deletions, 5 small segments): a crash after every storage-layer mutation, with torn variants of every open file. Each materialised crash image must open, equal exactly the old or the new state (monotonically; old before commit() is entered, new after it returns, always old for cancel), be searchable, accept a new writer, and that writer's commit must leave no orphaned segment file, extra TOC or temp directory.",
+        "note": "Trusted: the process-crash model (closed files, renames and deletes are durable in order; any write-record prefix of an open file may be lost), the canonical dump in mc/checks/c02.py. Power-loss reordering is outside the model.",
+    },
     "C05": {
         "engine": "E1", "level": "exploration",
         "technique": "bounded-exhaustive enumeration of query trees x posting-list alignments x k x weighting models x block sizes x layouts, differential against the exhaustive ranking of the same searcher",
@@ -55,6 +61,12 @@ CHECKS = {
         "technique": "bounded-exhaustive enumeration of token strings x parser configurations (totality) and of expression trees x renderings x configurations against the reference evaluator on an all-contents corpus (meaning)",
         "text": "Totality: every string of <=3 tokens over a 42-token grammar-aware alphabet, 4-5 tokens over reduced alphabets, and range templates on every field type, through 8 parser configurations; parse() may only return a Query or raise QueryParserError and the result searched on three indexes may only raise QueryError. Meaning: every expression tree up to 4 leaves over the documented constructs, three parenthesisation styles, 4 configurations: matched documents equal the reference reading (NOT > AND > OR > binary operators > implicit grouping).",
         "note": "Trusted: mc/qast.py reference evaluator; undocumented constructs (unparenthesised mixing of ANDNOT/ANDMAYBE/REQUIRE, *:*) are not generated.",
+    },
+    "C17": {
+        "engine": "E1", "level": "exploration",
+        "technique": "bounded-exhaustive enumeration of texts (all concatenations of <=3-4 chunks from a 13-chunk alphabet) x 64 analyzer/field configurations on the real code, checked by relations between whoosh's own index-time, query-time, phrase, offset and highlighting paths",
+        "text": "Every text of <=3 (thorough 4) chunks over an alphabet of letters, case, stop word, accented/multi-char-lowercase characters, alphanumerics, hyphen/apostrophe/URL forms, whitespace, punctuation and a 70-character word, for every shipped analyzer and filter chain on TEXT/KEYWORD/ID/NGRAM/NGRAMWORDS fields: the document is found by each index-time token, by the conjunction of its query-time tokens and by the parser's reading of the text, by every phrase of consecutive tokens; positions are non-decreasing, offsets are in range and re-analyse to the token; highlights stripped of markup are substrings and marked spans are matched terms for every fragmenter x formatter.",
+        "note": "Trusted: only relations between whoosh's own paths plus Python string slicing (no second tokenizer). Single-segment RAM index per shard.",
     },
     "C19": {
         "engine": "E1", "level": "exploration",
